@@ -14,6 +14,7 @@ func zzCmd_Set_BodyStdin() { zzCmdSet(2) }
 func zzCmdSet(mode int) {
 	g := zzCmdStore()
 	root := zzWorldInit(g)
+	zzPinRand()
 	opts := zzCmdOpts(root)
 	zzCmdMode(&opts, mode)
 	in := zzTaskInput()
@@ -131,6 +132,7 @@ func zzCmd_NewTask_BodyStdin() { zzCmdNewTask(2) }
 func zzCmdNewTask(mode int) {
 	g := zzCmdStore()
 	root := zzWorldInit(g)
+	zzPinRand()
 	opts := zzCmdOpts(root)
 	zzCmdMode(&opts, mode)
 	in := zzTaskInput()
@@ -204,6 +206,7 @@ func zzCmd_NewEpic_BodyStdin() { zzCmdNewEpic(2) }
 func zzCmdNewEpic(mode int) {
 	g := zzCmdStore()
 	root := zzWorldInit(g)
+	zzPinRand()
 	opts := zzCmdOpts(root)
 	zzCmdMode(&opts, mode)
 	in := zzTaskInput()
